@@ -23,6 +23,15 @@
                                              (no experiment declared), so these theorems subsume them
     `trso_sound_no_usable_surrogate`         the estimand of such a run denotes `P(Y | do(X))` in every compatible model
     `trso_no_usable_surrogate_den_eq_id`     ... hence the function the ID estimand denotes
+
+  EXACT hypothesis.  `identifyUsesLine6` inspects every component of line 4, also those the loop of line 4 never
+  evaluates because an earlier component was refused.  `identifyUsesLine6x` reads line 4 lazily (a later component is
+  inspected only if every earlier one returned an estimand) and is `true` exactly when the run really enters line 6 and
+  `line6` is not `.ok []`.  The theorems are proved for it (`trsoF_clearSurr_x`), the ones above are corollaries
+  (`identifyUsesLine6x_false_of`: conservative `false` implies exact `false`):
+
+    `trso_line6_unused_iff_id`, `trso_line6_unused_none_iff_id`, `trso_line6_unused_no_error`,
+    `trso_sound_line6_unused`, `trso_line6_unused_den_eq_id`, `identifyUsesLine6x_of_no_declared`
 -/
 import Y0.Props.C05
 import Y0.Lemmas.TrsoUse
@@ -66,51 +75,86 @@ theorem trso_cleared_initial {topo : MG Name → Except Err (List Name)} (ht : T
       ⟨hG, MG.acyclic_ranked hG hA, hYin, hY, hXY, trivial⟩
       ⟨MG.equiv_refl G, fun v => (mem_nsort v X).symm, fun v => (mem_nsort v Y).symm⟩
 
+/-- the exact predicate on validated input is the one of the run on the initial query -/
+theorem identifyUsesLine6x_eq {sep : SepTest} {G : MG Name} {Y X : List Name} {outcomes interventions : List (Pop × List Name)}
+    (hv : validInput G Y X outcomes interventions = true)
+    {graphs : List (Pop × MG Name)} (hg : surrogateToTransport G outcomes interventions = .ok graphs) :
+    identifyUsesLine6x sep G Y X outcomes interventions =
+      usesLine6x sep (initialQuery G Y X graphs interventions).fuel (initialQuery G Y X graphs interventions) := by
+  unfold identifyUsesLine6x
+  simp [hv, hg]
+
+/-- the exact predicate (line 4 read lazily) is below the conservative one: `identifyUsesLine6x … = false` is the
+weaker hypothesis -/
+theorem identifyUsesLine6x_false_of {sep : SepTest} {G : MG Name} {Y X : List Name}
+    {outcomes interventions : List (Pop × List Name)}
+    (h : identifyUsesLine6 sep G Y X outcomes interventions = false) :
+    identifyUsesLine6x sep G Y X outcomes interventions = false := by
+  unfold identifyUsesLine6 at h
+  unfold identifyUsesLine6x
+  split
+  · rfl
+  · rename_i hvv
+    rw [if_neg hvv] at h
+    cases hg : surrogateToTransport G outcomes interventions with
+    | error e => rfl
+    | ok graphs =>
+      rw [hg] at h
+      exact usesLine6x_false_of sep _ _ h
+
+theorem identifyUsesLine6x_le {sep : SepTest} {G : MG Name} {Y X : List Name}
+    {outcomes interventions : List (Pop × List Name)}
+    (h : identifyUsesLine6x sep G Y X outcomes interventions = true) :
+    identifyUsesLine6 sep G Y X outcomes interventions = true := by
+  cases hu : identifyUsesLine6 sep G Y X outcomes interventions with
+  | true => rfl
+  | false => rw [identifyUsesLine6x_false_of hu] at h; cases h
+
 /-- on validated input whose run never uses line 6, `identify_target_outcomes` is `trso` on the initial query with the
 declared experiments forgotten -/
-theorem identify_eq_trso_cleared {sep : SepTest} {G : MG Name} {Y X : List Name}
+theorem identify_eq_trso_cleared_x {sep : SepTest} {G : MG Name} {Y X : List Name}
     {outcomes interventions : List (Pop × List Name)} (hv : validInput G Y X outcomes interventions = true)
     {graphs : List (Pop × MG Name)} (hg : surrogateToTransport G outcomes interventions = .ok graphs)
-    (hU : identifyUsesLine6 sep G Y X outcomes interventions = false) :
+    (hU : identifyUsesLine6x sep G Y X outcomes interventions = false) :
     identifyTargetOutcomes sep G Y X outcomes interventions =
       trso sep (clearSurr (initialQuery G Y X graphs interventions)) := by
   rw [identify_eq_trso hv hg]
-  rw [identifyUsesLine6_eq hv hg] at hU
-  exact trso_clearSurr hU
+  rw [identifyUsesLine6x_eq hv hg] at hU
+  exact trso_clearSurr_x hU
 
 /-- **With no USABLE surrogate experiment TRSO returns an estimand exactly when ID does** (verdict part of the second
 sentence of C05, at the strength of the property text).  For every validated input over a well-formed acyclic graph of
 user variables, with non-empty outcomes, ANY declared experiments and ANY separation test, such that line 6 finds no
-usable source domain at any state of the run (`identifyUsesLine6 … = false`), `identify_target_outcomes` returns an
+usable source domain at any state of the run (`identifyUsesLine6x … = false`: no state the run really reaches), `identify_target_outcomes` returns an
 estimand iff the model of ID (`Y0.identify`, for any total topological-order oracle that lists the nodes) returns one. -/
-theorem trso_no_usable_surrogate_iff_id {topo : MG Name → Except Err (List Name)} (ht : TopoGood topo) (sep : SepTest)
+theorem trso_line6_unused_iff_id {topo : MG Name → Except Err (List Name)} (ht : TopoGood topo) (sep : SepTest)
     (G : MG Name) (hG : G.WF) (hA : G.Acyclic) (hsmall : ∀ v ∈ G.nodes, v < 200) (Y X : List Name)
     (outcomes interventions : List (Pop × List Name)) (hv : validInput G Y X outcomes interventions = true) (hY : Y ≠ [])
-    (hU : identifyUsesLine6 sep G Y X outcomes interventions = false) :
+    (hU : identifyUsesLine6x sep G Y X outcomes interventions = false) :
     (∃ e, identifyTargetOutcomes sep G Y X outcomes interventions = .ok (some e)) ↔
       (∃ e', identify topo G X Y = .ok e') := by
   obtain ⟨graphs, hg⟩ := surrogateToTransport_ok hG hv
-  rw [identify_eq_trso_cleared hv hg hU]
+  rw [identify_eq_trso_cleared_x hv hg hU]
   exact (trso_cleared_initial ht sep G hG hA hsmall Y X outcomes interventions hv hY hg).2
 
 /-- on such inputs TRSO raises no exception: it returns an estimand or "no estimand" (any separation test) -/
-theorem trso_no_usable_surrogate_no_error (sep : SepTest)
+theorem trso_line6_unused_no_error (sep : SepTest)
     (G : MG Name) (hG : G.WF) (hA : G.Acyclic) (hsmall : ∀ v ∈ G.nodes, v < 200) (Y X : List Name)
     (outcomes interventions : List (Pop × List Name)) (hv : validInput G Y X outcomes interventions = true) (hY : Y ≠ [])
-    (hU : identifyUsesLine6 sep G Y X outcomes interventions = false) :
+    (hU : identifyUsesLine6x sep G Y X outcomes interventions = false) :
     ∃ r, identifyTargetOutcomes sep G Y X outcomes interventions = .ok r := by
   obtain ⟨graphs, hg⟩ := surrogateToTransport_ok hG hv
-  rw [identify_eq_trso_cleared hv hg hU]
+  rw [identify_eq_trso_cleared_x hv hg hU]
   exact (trso_cleared_initial ancTopo_good sep G hG hA hsmall Y X outcomes interventions hv hY hg).1
 
 /-- the two refusals correspond as well: "no estimand" iff ID raises `Unidentifiable` -/
-theorem trso_no_usable_surrogate_none_iff_id {topo : MG Name → Except Err (List Name)} (ht : TopoGood topo)
+theorem trso_line6_unused_none_iff_id {topo : MG Name → Except Err (List Name)} (ht : TopoGood topo)
     (sep : SepTest) (G : MG Name) (hG : G.WF) (hA : G.Acyclic) (hsmall : ∀ v ∈ G.nodes, v < 200) (Y X : List Name)
     (outcomes interventions : List (Pop × List Name)) (hv : validInput G Y X outcomes interventions = true) (hY : Y ≠ [])
-    (hU : identifyUsesLine6 sep G Y X outcomes interventions = false) :
+    (hU : identifyUsesLine6x sep G Y X outcomes interventions = false) :
     identifyTargetOutcomes sep G Y X outcomes interventions = .ok none ↔ identify topo G X Y = .error .unidentifiable := by
-  have hiff := trso_no_usable_surrogate_iff_id ht sep G hG hA hsmall Y X outcomes interventions hv hY hU
-  obtain ⟨r, hr⟩ := trso_no_usable_surrogate_no_error sep G hG hA hsmall Y X outcomes interventions hv hY hU
+  have hiff := trso_line6_unused_iff_id ht sep G hG hA hsmall Y X outcomes interventions hv hY hU
+  obtain ⟨r, hr⟩ := trso_line6_unused_no_error sep G hG hA hsmall Y X outcomes interventions hv hY hU
   obtain ⟨hYin, _, _, _, hXY, _, _⟩ := validInput_spec hv
   have hid := id_total ht G X Y ⟨hG, MG.acyclic_ranked hG hA, hYin, hY, hXY⟩
   constructor
@@ -125,6 +169,122 @@ theorem trso_no_usable_surrogate_none_iff_id {topo : MG Name → Except Err (Lis
     | some e =>
       obtain ⟨e', he'⟩ := hiff.1 ⟨e, hr⟩
       rw [hun] at he'; cases he'
+
+/-! ### denotations: the estimand of such a run is `P(Y | do(X))`, hence the function the ID estimand denotes -/
+
+/-- the full invariant does not read the declared experiments either (target phase) -/
+theorem QInv.clearSurr_target {M : Nat} {q : Query} {G : MG Name} (h : QInv M q G) (ha : q.active = [])
+    (hd : q.domain = targetPop) (hT : ∀ v ∈ G.nodes, isTnode v = false) : QInv M (clearSurr q) G :=
+  ⟨h.look, h.wf, h.rk, h.tpl, h.tbi, h.Yin, h.YT, h.Yne, h.Xin, h.XY, h.sub, h.size, Or.inl ⟨ha, hd, hT, Or.inl rfl⟩⟩
+
+/-- **With no usable surrogate experiment the TRSO estimand is sound against every single model**: for every validated
+input over a well-formed acyclic graph of user variables (names below 100), with non-empty outcomes, any declared
+experiments and any separation test, if line 6 finds no usable domain during the run then every estimand
+`identify_target_outcomes` returns denotes `P(Y | do(X))` (`Scm.doProb`) in EVERY positive semi-Markovian model
+compatible with the graph, at every assignment.  (Same proof as `trso_sound_no_surrogate_core`, on the cleared query.) -/
+theorem trso_sound_line6_unused (sep : SepTest) (G : MG Name) (hG : G.WF) (hA : G.Acyclic)
+    (hsmall : ∀ v ∈ G.nodes, v < 100) (Y X : List Name) (outcomes interventions : List (Pop × List Name))
+    (hv : validInput G Y X outcomes interventions = true) (hY : Y ≠ [])
+    (hU : identifyUsesLine6x sep G Y X outcomes interventions = false)
+    (e : Expr) (h : identifyTargetOutcomes sep G Y X outcomes interventions = .ok (some e))
+    (M : Scm) (hM : M.Compatible G) (σ' σ : Val) :
+    den (M.env G) σ' e σ = M.doProb G X Y σ := by
+  obtain ⟨graphs, hg⟩ := surrogateToTransport_ok hG hv
+  obtain ⟨hinv0, _, _, _⟩ := qinitial_inv hG hA hsmall hv hY hg
+  rw [identify_eq_trso_cleared_x hv hg hU] at h
+  have hr : G.Ranked := MG.acyclic_ranked hG hA
+  have hsmall' : ∀ v ∈ G.nodes, v < 200 := fun v hv => Nat.lt_trans (hsmall v hv) (by decide)
+  have hnoT : ∀ v ∈ G.nodes, isTnode v = false := noT_of_small hsmall'
+  have hinv := hinv0.clearSurr_target rfl rfl hnoT
+  set q := clearSurr (initialQuery G Y X graphs interventions) with hqdef
+  let pops : List Name := targetPop :: graphs.map (fun p => p.1)
+  have hcoinMem : TargetClass G hG hr pops σ' (famCtx (constFam coinScm G) G pops σ'
+      (constFam_ok (coinScm_compatible G) hG hr _)) := ⟨coinScm, coinScm_compatible G, rfl⟩
+  have hcoin : Coin (famCtx (constFam coinScm G) G pops σ' (constFam_ok (coinScm_compatible G) hG hr _)) :=
+    coin_famCtx G hG hr pops σ'
+  have hsub : ∀ p ∈ graphs, RSub G p.2 := by
+    intro p hp
+    rcases (surrogateToTransport_spec hG hv hg).2 p hp with rfl | ⟨_, ns, hns, hp2⟩
+    · exact rsub_self
+    · rw [hp2]; exact rsub_ctd hsmall hns
+  have hI : Inv (TargetClass G hG hr pops σ') q G := by
+    rintro ctx ⟨M', hM', rfl⟩
+    exact famCtx_initial σ' (constFam_ok hM' hG hr _) (List.mem_cons_self) rfl hnoT Y X graphs [] hsub
+      (fun p _ v hne => absurd rfl hne) (fun p hp => List.mem_cons_of_mem _ (List.mem_map_of_mem hp))
+  have hK : KNoSurr q := ⟨noSurr_nil rfl, rfl⟩
+  obtain ⟨hgood, _, hden⟩ := trsoF_sound_engine sep (TargetClass G hG hr pops σ') hcoinMem hcoin KNoSurr kNoSurr_stable _
+    (h67_noSurr sep _ _) q.fuel q G hinv hI hK e h _ ⟨M, hM, rfl⟩
+  rw [show M.env G = (constFam M G).env from rfl, den_eq_denL_of_clean _ σ' hgood.1 σ]
+  exact (hden σ).trans (spec_eq_doProb M G hnoT X Y σ)
+
+/-- **... and it is the function the ID estimand denotes** (with `trso_line6_unused_iff_id`: the clause "when no
+surrogate experiment is usable it returns an estimand exactly when ID does", verdict and value) -/
+theorem trso_line6_unused_den_eq_id {topo : MG Name → Except Err (List Name)} (ts : TopoSound topo) (sep : SepTest)
+    (G : MG Name) (hG : G.WF) (hA : G.Acyclic) (hsmall : ∀ v ∈ G.nodes, v < 100) (Y X : List Name)
+    (outcomes interventions : List (Pop × List Name)) (hv : validInput G Y X outcomes interventions = true) (hY : Y ≠ [])
+    (hU : identifyUsesLine6x sep G Y X outcomes interventions = false) (e e' : Expr)
+    (h : identifyTargetOutcomes sep G Y X outcomes interventions = .ok (some e)) (h' : identify topo G X Y = .ok e')
+    (M : Scm) (hM : M.Compatible G) (σ' σ : Val) :
+    den (M.env G) σ' e σ = den (M.env G) σ' e' σ := by
+  obtain ⟨hYin, _, _, _, hXY, _, _⟩ := validInput_spec hv
+  rw [trso_sound_line6_unused sep G hG hA hsmall Y X outcomes interventions hv hY hU e h M hM σ' σ,
+    id_sound ts G X Y ⟨hG, MG.acyclic_ranked hG hA, hYin, hY, hXY⟩ e' h' M hM σ' σ]
+
+/-! ### the conservative hypothesis (`identifyUsesLine6`: every component of line 4 inspected) — corollaries -/
+
+theorem identify_eq_trso_cleared {sep : SepTest} {G : MG Name} {Y X : List Name}
+    {outcomes interventions : List (Pop × List Name)} (hv : validInput G Y X outcomes interventions = true)
+    {graphs : List (Pop × MG Name)} (hg : surrogateToTransport G outcomes interventions = .ok graphs)
+    (hU : identifyUsesLine6 sep G Y X outcomes interventions = false) :
+    identifyTargetOutcomes sep G Y X outcomes interventions =
+      trso sep (clearSurr (initialQuery G Y X graphs interventions)) :=
+  identify_eq_trso_cleared_x hv hg (identifyUsesLine6x_false_of hU)
+
+/-- `trso_line6_unused_iff_id` under the conservative hypothesis -/
+theorem trso_no_usable_surrogate_iff_id {topo : MG Name → Except Err (List Name)} (ht : TopoGood topo) (sep : SepTest)
+    (G : MG Name) (hG : G.WF) (hA : G.Acyclic) (hsmall : ∀ v ∈ G.nodes, v < 200) (Y X : List Name)
+    (outcomes interventions : List (Pop × List Name)) (hv : validInput G Y X outcomes interventions = true) (hY : Y ≠ [])
+    (hU : identifyUsesLine6 sep G Y X outcomes interventions = false) :
+    (∃ e, identifyTargetOutcomes sep G Y X outcomes interventions = .ok (some e)) ↔
+      (∃ e', identify topo G X Y = .ok e') :=
+  trso_line6_unused_iff_id ht sep G hG hA hsmall Y X outcomes interventions hv hY (identifyUsesLine6x_false_of hU)
+
+/-- `trso_line6_unused_no_error` under the conservative hypothesis -/
+theorem trso_no_usable_surrogate_no_error (sep : SepTest)
+    (G : MG Name) (hG : G.WF) (hA : G.Acyclic) (hsmall : ∀ v ∈ G.nodes, v < 200) (Y X : List Name)
+    (outcomes interventions : List (Pop × List Name)) (hv : validInput G Y X outcomes interventions = true) (hY : Y ≠ [])
+    (hU : identifyUsesLine6 sep G Y X outcomes interventions = false) :
+    ∃ r, identifyTargetOutcomes sep G Y X outcomes interventions = .ok r :=
+  trso_line6_unused_no_error sep G hG hA hsmall Y X outcomes interventions hv hY (identifyUsesLine6x_false_of hU)
+
+/-- `trso_line6_unused_none_iff_id` under the conservative hypothesis -/
+theorem trso_no_usable_surrogate_none_iff_id {topo : MG Name → Except Err (List Name)} (ht : TopoGood topo)
+    (sep : SepTest) (G : MG Name) (hG : G.WF) (hA : G.Acyclic) (hsmall : ∀ v ∈ G.nodes, v < 200) (Y X : List Name)
+    (outcomes interventions : List (Pop × List Name)) (hv : validInput G Y X outcomes interventions = true) (hY : Y ≠ [])
+    (hU : identifyUsesLine6 sep G Y X outcomes interventions = false) :
+    identifyTargetOutcomes sep G Y X outcomes interventions = .ok none ↔ identify topo G X Y = .error .unidentifiable :=
+  trso_line6_unused_none_iff_id ht sep G hG hA hsmall Y X outcomes interventions hv hY (identifyUsesLine6x_false_of hU)
+
+/-- `trso_sound_line6_unused` under the conservative hypothesis -/
+theorem trso_sound_no_usable_surrogate (sep : SepTest) (G : MG Name) (hG : G.WF) (hA : G.Acyclic)
+    (hsmall : ∀ v ∈ G.nodes, v < 100) (Y X : List Name) (outcomes interventions : List (Pop × List Name))
+    (hv : validInput G Y X outcomes interventions = true) (hY : Y ≠ [])
+    (hU : identifyUsesLine6 sep G Y X outcomes interventions = false)
+    (e : Expr) (h : identifyTargetOutcomes sep G Y X outcomes interventions = .ok (some e))
+    (M : Scm) (hM : M.Compatible G) (σ' σ : Val) :
+    den (M.env G) σ' e σ = M.doProb G X Y σ :=
+  trso_sound_line6_unused sep G hG hA hsmall Y X outcomes interventions hv hY (identifyUsesLine6x_false_of hU) e h M hM σ' σ
+
+/-- `trso_line6_unused_den_eq_id` under the conservative hypothesis -/
+theorem trso_no_usable_surrogate_den_eq_id {topo : MG Name → Except Err (List Name)} (ts : TopoSound topo) (sep : SepTest)
+    (G : MG Name) (hG : G.WF) (hA : G.Acyclic) (hsmall : ∀ v ∈ G.nodes, v < 100) (Y X : List Name)
+    (outcomes interventions : List (Pop × List Name)) (hv : validInput G Y X outcomes interventions = true) (hY : Y ≠ [])
+    (hU : identifyUsesLine6 sep G Y X outcomes interventions = false) (e e' : Expr)
+    (h : identifyTargetOutcomes sep G Y X outcomes interventions = .ok (some e)) (h' : identify topo G X Y = .ok e')
+    (M : Scm) (hM : M.Compatible G) (σ' σ : Val) :
+    den (M.env G) σ' e σ = den (M.env G) σ' e' σ :=
+  trso_line6_unused_den_eq_id ts sep G hG hA hsmall Y X outcomes interventions hv hY (identifyUsesLine6x_false_of hU)
+    e e' h h' M hM σ' σ
 
 /-! ### the hypothesis "no experiment declared" of Props/C05 implies "no experiment usable" -/
 
@@ -241,65 +401,13 @@ theorem identifyUsesLine6_of_no_declared (sep : SepTest)
   rw [identifyUsesLine6_eq hv hg]
   exact usesLine6_false_of_noSurr sep _ _ _ G hinv (initial_noSurr hZ) hc
 
-/-! ### denotations: the estimand of such a run is `P(Y | do(X))`, hence the function the ID estimand denotes -/
-
-/-- the full invariant does not read the declared experiments either (target phase) -/
-theorem QInv.clearSurr_target {M : Nat} {q : Query} {G : MG Name} (h : QInv M q G) (ha : q.active = [])
-    (hd : q.domain = targetPop) (hT : ∀ v ∈ G.nodes, isTnode v = false) : QInv M (clearSurr q) G :=
-  ⟨h.look, h.wf, h.rk, h.tpl, h.tbi, h.Yin, h.YT, h.Yne, h.Xin, h.XY, h.sub, h.size, Or.inl ⟨ha, hd, hT, Or.inl rfl⟩⟩
-
-/-- **With no usable surrogate experiment the TRSO estimand is sound against every single model**: for every validated
-input over a well-formed acyclic graph of user variables (names below 100), with non-empty outcomes, any declared
-experiments and any separation test, if line 6 finds no usable domain during the run then every estimand
-`identify_target_outcomes` returns denotes `P(Y | do(X))` (`Scm.doProb`) in EVERY positive semi-Markovian model
-compatible with the graph, at every assignment.  (Same proof as `trso_sound_no_surrogate_core`, on the cleared query.) -/
-theorem trso_sound_no_usable_surrogate (sep : SepTest) (G : MG Name) (hG : G.WF) (hA : G.Acyclic)
-    (hsmall : ∀ v ∈ G.nodes, v < 100) (Y X : List Name) (outcomes interventions : List (Pop × List Name))
-    (hv : validInput G Y X outcomes interventions = true) (hY : Y ≠ [])
-    (hU : identifyUsesLine6 sep G Y X outcomes interventions = false)
-    (e : Expr) (h : identifyTargetOutcomes sep G Y X outcomes interventions = .ok (some e))
-    (M : Scm) (hM : M.Compatible G) (σ' σ : Val) :
-    den (M.env G) σ' e σ = M.doProb G X Y σ := by
-  obtain ⟨graphs, hg⟩ := surrogateToTransport_ok hG hv
-  obtain ⟨hinv0, _, _, _⟩ := qinitial_inv hG hA hsmall hv hY hg
-  rw [identify_eq_trso_cleared hv hg hU] at h
-  have hr : G.Ranked := MG.acyclic_ranked hG hA
-  have hsmall' : ∀ v ∈ G.nodes, v < 200 := fun v hv => Nat.lt_trans (hsmall v hv) (by decide)
-  have hnoT : ∀ v ∈ G.nodes, isTnode v = false := noT_of_small hsmall'
-  have hinv := hinv0.clearSurr_target rfl rfl hnoT
-  set q := clearSurr (initialQuery G Y X graphs interventions) with hqdef
-  let pops : List Name := targetPop :: graphs.map (fun p => p.1)
-  have hcoinMem : TargetClass G hG hr pops σ' (famCtx (constFam coinScm G) G pops σ'
-      (constFam_ok (coinScm_compatible G) hG hr _)) := ⟨coinScm, coinScm_compatible G, rfl⟩
-  have hcoin : Coin (famCtx (constFam coinScm G) G pops σ' (constFam_ok (coinScm_compatible G) hG hr _)) :=
-    coin_famCtx G hG hr pops σ'
-  have hsub : ∀ p ∈ graphs, RSub G p.2 := by
-    intro p hp
-    rcases (surrogateToTransport_spec hG hv hg).2 p hp with rfl | ⟨_, ns, hns, hp2⟩
-    · exact rsub_self
-    · rw [hp2]; exact rsub_ctd hsmall hns
-  have hI : Inv (TargetClass G hG hr pops σ') q G := by
-    rintro ctx ⟨M', hM', rfl⟩
-    exact famCtx_initial σ' (constFam_ok hM' hG hr _) (List.mem_cons_self) rfl hnoT Y X graphs [] hsub
-      (fun p _ v hne => absurd rfl hne) (fun p hp => List.mem_cons_of_mem _ (List.mem_map_of_mem hp))
-  have hK : KNoSurr q := ⟨noSurr_nil rfl, rfl⟩
-  obtain ⟨hgood, _, hden⟩ := trsoF_sound_engine sep (TargetClass G hG hr pops σ') hcoinMem hcoin KNoSurr kNoSurr_stable _
-    (h67_noSurr sep _ _) q.fuel q G hinv hI hK e h _ ⟨M, hM, rfl⟩
-  rw [show M.env G = (constFam M G).env from rfl, den_eq_denL_of_clean _ σ' hgood.1 σ]
-  exact (hden σ).trans (spec_eq_doProb M G hnoT X Y σ)
-
-/-- **... and it is the function the ID estimand denotes** (with `trso_no_usable_surrogate_iff_id`: the clause "when no
-surrogate experiment is usable it returns an estimand exactly when ID does", verdict and value) -/
-theorem trso_no_usable_surrogate_den_eq_id {topo : MG Name → Except Err (List Name)} (ts : TopoSound topo) (sep : SepTest)
-    (G : MG Name) (hG : G.WF) (hA : G.Acyclic) (hsmall : ∀ v ∈ G.nodes, v < 100) (Y X : List Name)
+/-- ... hence also for the exact predicate -/
+theorem identifyUsesLine6x_of_no_declared (sep : SepTest)
+    (G : MG Name) (hG : G.WF) (hA : G.Acyclic) (hsmall : ∀ v ∈ G.nodes, v < 200) (Y X : List Name)
     (outcomes interventions : List (Pop × List Name)) (hv : validInput G Y X outcomes interventions = true) (hY : Y ≠ [])
-    (hU : identifyUsesLine6 sep G Y X outcomes interventions = false) (e e' : Expr)
-    (h : identifyTargetOutcomes sep G Y X outcomes interventions = .ok (some e)) (h' : identify topo G X Y = .ok e')
-    (M : Scm) (hM : M.Compatible G) (σ' σ : Val) :
-    den (M.env G) σ' e σ = den (M.env G) σ' e' σ := by
-  obtain ⟨hYin, _, _, _, hXY, _, _⟩ := validInput_spec hv
-  rw [trso_sound_no_usable_surrogate sep G hG hA hsmall Y X outcomes interventions hv hY hU e h M hM σ' σ,
-    id_sound ts G X Y ⟨hG, MG.acyclic_ranked hG hA, hYin, hY, hXY⟩ e' h' M hM σ' σ]
+    (hZ : ∀ p ∈ interventions, p.2 = []) :
+    identifyUsesLine6x sep G Y X outcomes interventions = false :=
+  identifyUsesLine6x_false_of (identifyUsesLine6_of_no_declared sep G hG hA hsmall Y X outcomes interventions hv hY hZ)
 
 /-! ### non-vacuity -/
 
@@ -335,6 +443,19 @@ makes TRSO answer (so the hypothesis `identifyUsesLine6 … = false` cannot be d
 example : identifyUsesLine6 dSeparated bow [1] [0] [(1001, [1])] [(1001, [0])] = true ∧
     ∃ e, identifyTargetOutcomes dSeparated bow [1] [0] [(1001, [1])] [(1001, [0])] = .ok (some e) :=
   ⟨rfl, _, rfl⟩
+
+/-- two bows `0 → 1`, `0 ↔ 1` and `3 → 2`, `3 ↔ 2` -/
+private def twoBows : MG Name := MG.fromEdges [] [(0, 1), (3, 2)] [(0, 1), (3, 2)]
+
+/-- the exact predicate is strictly weaker than the conservative one: line 4 splits `{1, 2}` into the components `{1}`
+and `{2}`; the first (a bow, no experiment on `0`) is refused, so the loop of line 4 stops and the run never uses line 6;
+the second component, never evaluated, would use the experiment on `3`.  `identifyUsesLine6` inspects it (`true`),
+`identifyUsesLine6x` does not (`false`); TRSO answers "no estimand", as ID does (`trso_line6_unused_none_iff_id`). -/
+example : validInput twoBows [1, 2] [0, 3] [(1001, [2])] [(1001, [3])] = true ∧
+    identifyUsesLine6 dSeparated twoBows [1, 2] [0, 3] [(1001, [2])] [(1001, [3])] = true ∧
+    identifyUsesLine6x dSeparated twoBows [1, 2] [0, 3] [(1001, [2])] [(1001, [3])] = false ∧
+    identifyTargetOutcomes dSeparated twoBows [1, 2] [0, 3] [(1001, [2])] [(1001, [3])] = .ok none :=
+  ⟨rfl, rfl, rfl, rfl⟩
 
 end Trso
 end Y0
